@@ -109,7 +109,7 @@ ITEMS = {
                               st.sampled_from([1, 1, -1]))),
     "root": _item("root", a=bigint, n=st.one_of(st.integers(1, 13), st.integers(1, 70))),
     "powm": _item("powm", b=bigint, e=st.one_of(st.integers(-40, 40), st.integers(-2 ** 70, 2 ** 200)), m=posint),
-    "seq": _item("seq", n=st.one_of(st.integers(0, 120), st.integers(0, 1500)), a=bigint, k=st.integers(0, 30),
+    "seq": _item("seq", n=st.one_of(st.integers(0, 120), st.integers(0, 1500)), a=bigint, kb=st.integers(0, 30),
                  m=st.integers(-3, 4)),
     "smallnt": _item("smallnt", n=st.one_of(smallpos, smallpos, smooth.map(lambda v: v % (10 ** 11) + 1)), a=bigint,
                      big=bigint),
@@ -252,7 +252,7 @@ def compile_item(it, base, tags=()):
         emit(["nt_powermod", b, e, m])
         emit(["be_pow_ui", b % (2 ** 100) - 2 ** 99, abs(e) % 40])
     elif k == "seq":
-        n, a, kk, m = it["n"], it["a"], it["k"], it["m"]
+        n, a, kk, m = it["n"], it["a"], it["kb"], it["m"]
         for op in ("be_fib", "be_lucnum", "nt_fibonacci", "nt_lucas"):
             emit([op, n])
         for op in ("be_fib2", "be_lucnum2", "nt_fibonacci2", "nt_lucas2"):
